@@ -31,6 +31,8 @@ def fpi (s : Stack) : List (Tid × TaskSt) × List (Nat × Nat) × Nat × Option
 @[simp] theorem fpi_with_storeLog (s : Stack) (x : List (Bool × SvcKey × Addr)) : fpi { s with storeLog := x } = fpi s := rfl
 @[simp] theorem fpi_with_refreshLog (s : Stack) (x : List (Addr × SvcKey × Nat × Nat)) : fpi { s with refreshLog := x } = fpi s := rfl
 @[simp] theorem fpi_with_armLog (s : Stack) (x : List (Cb × Nat × Nat)) : fpi { s with armLog := x } = fpi s := rfl
+@[simp] theorem fpi_with_subMarks (s : Stack) (x : List (Option Nat × Nat)) : fpi { s with subMarks := x } = fpi s := rfl
+@[simp] theorem fpi_markRound (s : Stack) (n : Nat) : fpi (s.markRound n) = fpi s := rfl
 @[simp] theorem fpi_with_found_refreshLog (s : Stack) (x : TStore SvcKey) (y : List (Addr × SvcKey × Nat × Nat)) : fpi { s with found := x, refreshLog := y } = fpi s := rfl
 @[simp] theorem fpi_with_found (s : Stack) (x : TStore SvcKey) : fpi { s with found := x } = fpi s := rfl
 @[simp] theorem fpi_with_found_storeLog (s : Stack) (x : TStore SvcKey) (y : List (Bool × SvcKey × Addr)) : fpi { s with found := x, storeLog := y } = fpi s := rfl
@@ -222,7 +224,7 @@ theorem fpi_stepOffer (s : Stack) (tid : Tid) (t : TaskSt) (i : Nat) (h : tid.1 
   unfold subscriberStart; split
   · rfl
   · simp only []
-    exact (fpi_with_subTask _ _).trans (by simp)
+    exact (fpi_with_subTask _ _).trans (by simp; rfl)
 
 @[simp] theorem fpi_subscriberStop (s : Stack) (b : Bool) : fpi (s.subscriberStop b) = fpi s := by
   unfold subscriberStop; split; rfl
